@@ -19,7 +19,7 @@
 (* the same pair of files returns a non-nil config  <=>  StartupAccepts.   *)
 (*                                                                         *)
 (* A reload is the step sequence of file_config.go Reload:                 *)
-(*   Start -> ReadC -> ReadR -> Validate -> Compare -> Apply               *)
+(*   Start -> ReadC -> ReadR -> Validate -> Compare -> CompareR -> Apply   *)
 (*         -> BeginCallbacks -> Callback(l)* -> Return                     *)
 (* one action per system call / critical section.  Two modes:              *)
 (*   Atomic = TRUE   a whole Reload() call is one action `Reload`          *)
@@ -47,6 +47,17 @@
 (*              section (a reload lock); FALSE (code as is): only the      *)
 (*              assignment in Apply is protected (f.mux), the hash compare *)
 (*              reads the running hashes unprotected.                      *)
+(*                                                                         *)
+(* Configurations                                                          *)
+(*   MC_Reload_seq[_big]   Atomic, Faithful: the graph the walker replays  *)
+(*   MC_Reload_ideal       Atomic, ideal: ReloadCorrect, AcceptedRunning   *)
+(*   MC_Reload_steps[_big] two reloaders, ideal design: all safety props   *)
+(*   MC_Reload_excl_ideal / _code   Exclusive: SeqEquivalent               *)
+(*   MC_Reload_live        FairSpec: Converges, Quiesces                   *)
+(*   MC_Reload_code_cex    the code as is; EXPECTED TO FAIL (NoRegress,    *)
+(*                         NoDoubleApply, NotifiedOncePerChange): the      *)
+(*                         counterexamples quoted in known_findings.json   *)
+(*   TraceReload_*.cfg     trace validation, see TraceReload.tla           *)
 (***************************************************************************)
 EXTENDS Integers, FiniteSets, TLC, Json
 
@@ -55,7 +66,7 @@ CONSTANTS CContents,      \* config contents the environment may write
           Procs,          \* reload triggers, e.g. {"timer", "pubsub"}
           Listeners,      \* every listener that is ever registered
           InitListeners,  \* those registered before the first reload
-          MaxWrites,      \* bound on the number of file writes
+          MaxWrites,      \* bound on the number of file writes (step mode)
           Atomic, Exclusive, Serialized, Faithful
 
 VARIABLES fileC, fileR,        \* what is on disk
@@ -64,16 +75,19 @@ VARIABLES fileC, fileR,        \* what is on disk
           runVC, runVR,        \* ghost: file versions the running contents were read at
           registered,          \* f.callbacks
           lastNotif, lastRes,  \* Atomic mode: notifications per listener / result of the last step
-          pc, rdC, rdR, rdVC, rdVR, verdict, real, cbLeft, res,   \* per reloader
+          pc,                  \* per reloader: the step it is about to take
+          loc,                 \* per reloader: locals of the running Reload() call
+          cbLeft,              \* per reloader: listeners its callback loop has still to call
+          res,                 \* per reloader: result of its last Reload() (Exclusive check only)
           lock,                \* the reload lock (Serialized only): "free" or its holder
           expected, notified,  \* ghost counters per listener
-          snap,                \* ghost: what a reloader saw when it started (Exclusive check)
+          snap,                \* ghost: what a reloader saw when it started (Exclusive check only)
           act
 
 fvars == <<fileC, fileR, verC, verR>>
 rvars == <<runC, runR, runVC, runVR>>
 ovars == <<lastNotif, lastRes>>
-pvars == <<pc, rdC, rdR, rdVC, rdVR, verdict, real, cbLeft, res, lock, snap>>
+pvars == <<pc, loc, cbLeft, res, lock, snap>>
 gvars == <<expected, notified>>
 vars  == <<fvars, rvars, registered, ovars, pvars, gvars, act>>
 
@@ -107,7 +121,8 @@ Max(a, b) == IF a >= b THEN a ELSE b
 (* while (rc, rr) is running: is it applied, and what does Reload return   *)
 (* ("nil" / "err"; the C27 statement does not say whether a warning is     *)
 (* reported as an error value, so for warning-only content both are        *)
-(* allowed).                                                               *)
+(* allowed; rejected content is reported as an error, which is the         *)
+(* documented contract of Config.Reload).                                  *)
 (***************************************************************************)
 Out(a, e) == [apply |-> a, res |-> e]
 
@@ -128,6 +143,9 @@ DevName(fc) == IF fc \in {"Br", "Brw"} THEN "reload-ignores-version" ELSE "warn-
 (***************************************************************************)
 (* Init: startup (NewConfig) read an acceptable pair.                      *)
 (***************************************************************************)
+NoLoc  == [rdC |-> "-", rdR |-> "-", rdVC |-> 0, rdVR |-> 0, verdict |-> "-", real |-> FALSE]
+NoSnap == [fc |-> "-", fr |-> "-", rc |-> "-", rr |-> "-", reg |-> {}, n |-> Zero]
+
 Init == /\ fileC \in CContents \cap CAccept
         /\ fileR \in RContents \cap RAccept
         /\ verC = 0 /\ verR = 0
@@ -136,19 +154,19 @@ Init == /\ fileC \in CContents \cap CAccept
         /\ registered = InitListeners
         /\ lastNotif = Zero /\ lastRes = "none"
         /\ pc = [p \in Procs |-> "idle"]
-        /\ rdC = [p \in Procs |-> "-"] /\ rdR = [p \in Procs |-> "-"]
-        /\ rdVC = [p \in Procs |-> 0] /\ rdVR = [p \in Procs |-> 0]
-        /\ verdict = [p \in Procs |-> "-"]
-        /\ real = [p \in Procs |-> FALSE]
+        /\ loc = [p \in Procs |-> NoLoc]
         /\ cbLeft = [p \in Procs |-> {}]
         /\ res = [p \in Procs |-> "none"]
         /\ lock = "free"
         /\ expected = Zero /\ notified = Zero
-        /\ snap = [p \in Procs |-> [fc |-> "-", fr |-> "-", rc |-> "-", rr |-> "-", reg |-> {}, n |-> Zero]]
+        /\ snap = [p \in Procs |-> NoSnap]
         /\ act = [name |-> "Init"]
 
 AllIdle == \A p \in Procs : pc[p] = "idle"
-Quiet == ~Exclusive \/ AllIdle      \* may the environment move?
+\* may the environment move?  (Atomic mode: only after the driver has collected
+\* the observations of the last Reload, see Collect - this keeps the graph small)
+Quiet == /\ Exclusive => AllIdle
+         /\ Atomic => lastRes = "none"
 
 (***************************************************************************)
 (* Environment                                                             *)
@@ -157,29 +175,32 @@ WriteC(c) == /\ Quiet
              /\ Atomic \/ verC + verR < MaxWrites
              /\ c \in CContents /\ c # fileC
              /\ fileC' = c /\ verC' = IF Atomic THEN verC ELSE verC + 1
-             /\ lastNotif' = Zero /\ lastRes' = "none"
-             /\ UNCHANGED <<fileR, verR, rvars, registered, pvars, gvars>>
+             /\ UNCHANGED <<fileR, verR, rvars, registered, ovars, pvars, gvars>>
              /\ act' = [name |-> "WriteC", c |-> c]
 
 WriteR(r) == /\ Quiet
              /\ Atomic \/ verC + verR < MaxWrites
              /\ r \in RContents /\ r # fileR
              /\ fileR' = r /\ verR' = IF Atomic THEN verR ELSE verR + 1
-             /\ lastNotif' = Zero /\ lastRes' = "none"
-             /\ UNCHANGED <<fileC, verC, rvars, registered, pvars, gvars>>
+             /\ UNCHANGED <<fileC, verC, rvars, registered, ovars, pvars, gvars>>
              /\ act' = [name |-> "WriteR", r |-> r]
 
 \* fileConfig.RegisterReloadCallback (under f.mux)
 Register(l) == /\ Quiet
                /\ l \in Listeners \ registered
                /\ registered' = registered \cup {l}
-               /\ lastNotif' = Zero /\ lastRes' = "none"
-               /\ UNCHANGED <<fvars, rvars, pvars, gvars>>
+               /\ UNCHANGED <<fvars, rvars, ovars, pvars, gvars>>
                /\ act' = [name |-> "Register", l |-> l]
 
 (***************************************************************************)
 (* Atomic mode: one action per Reload() call                               *)
 (***************************************************************************)
+\* the test driver forgets the result and the notification counts of the last Reload
+Collect == /\ Atomic /\ lastRes # "none"
+           /\ lastNotif' = Zero /\ lastRes' = "none"
+           /\ UNCHANGED <<fvars, rvars, registered, pvars, gvars>>
+           /\ act' = [name |-> "Collect"]
+
 ReloadOutcome(o, dev) ==
   /\ IF o.apply THEN /\ runC' = fileC /\ runR' = fileR
                      /\ lastNotif' = [l \in Listeners |-> IF l \in registered THEN 1 ELSE 0]
@@ -189,107 +210,131 @@ ReloadOutcome(o, dev) ==
   /\ act' = IF dev = "" THEN [name |-> "Reload"] ELSE [name |-> "Reload", dev |-> dev]
 
 Reload ==
-  LET ideal == IdealOutcomes(fileC, fileR, runC, runR)
-      code  == CodeOutcomes(fileC, fileR, runC, runR)
-  IN \/ \E o \in ideal : ReloadOutcome(o, "")
-     \/ /\ Faithful
-        /\ \E o \in code \ ideal : ReloadOutcome(o, DevName(fileC))
+  /\ Atomic
+  /\ LET ideal == IdealOutcomes(fileC, fileR, runC, runR)
+         code  == CodeOutcomes(fileC, fileR, runC, runR)
+     IN \/ \E o \in ideal : ReloadOutcome(o, "")
+        \/ /\ Faithful
+           /\ \E o \in code \ ideal : ReloadOutcome(o, DevName(fileC))
 
 (***************************************************************************)
 (* Step mode: the reloaders                                                *)
 (***************************************************************************)
-\* leave Reload with result e before anything was applied
-ReturnEarly(p, e) == /\ pc' = [pc EXCEPT ![p] = "idle"]
-                     /\ res' = [res EXCEPT ![p] = IF Exclusive THEN e ELSE "none"]   \* only the Exclusive check looks at it
-                     /\ lock' = IF Serialized THEN "free" ELSE lock
+\* Reload() returns e: its locals die
+Finish(p, e) == /\ pc' = [pc EXCEPT ![p] = "idle"]
+                /\ loc' = [loc EXCEPT ![p] = NoLoc]
+                /\ res' = [res EXCEPT ![p] = IF Exclusive THEN e ELSE "none"]
+\* ... before anything was applied (the ideal design gives the reload lock back)
+ReturnEarly(p, e) == Finish(p, e) /\ lock' = IF Serialized THEN "free" ELSE lock
+GoOn(p, next, l) == /\ pc' = [pc EXCEPT ![p] = next]
+                    /\ loc' = [loc EXCEPT ![p] = l]
+                    /\ UNCHANGED <<res, lock>>
 
 \* Reload() is called (the ideal design takes the reload lock here)
-Start(p) == /\ pc[p] = "idle"
+Start(p) == /\ ~Atomic
+            /\ pc[p] = "idle"
             /\ Exclusive => AllIdle
             /\ Serialized => lock = "free"
             /\ lock' = IF Serialized THEN p ELSE lock
             /\ pc' = [pc EXCEPT ![p] = "readC"]
             /\ res' = [res EXCEPT ![p] = "none"]
-            /\ snap' = [snap EXCEPT ![p] = [fc |-> fileC, fr |-> fileR, rc |-> runC, rr |-> runR, reg |-> registered, n |-> notified]]
-            /\ UNCHANGED <<fvars, rvars, registered, ovars, rdC, rdR, rdVC, rdVR, verdict, real, cbLeft, gvars>>
+            /\ snap' = IF Exclusive
+                         THEN [snap EXCEPT ![p] = [fc |-> fileC, fr |-> fileR, rc |-> runC, rr |-> runR, reg |-> registered, n |-> notified]]
+                         ELSE snap
+            /\ UNCHANGED <<fvars, rvars, registered, ovars, loc, cbLeft, gvars>>
             /\ act' = [name |-> "Start", p |-> p]
 
 \* getConfigDataForLocations(opts.ConfigLocations): os.ReadFile of the config file
 ReadC(p) == /\ pc[p] = "readC"
-            /\ rdC' = [rdC EXCEPT ![p] = fileC] /\ rdVC' = [rdVC EXCEPT ![p] = verC]
             /\ IF fileC = "U" THEN ReturnEarly(p, "err")
-                              ELSE pc' = [pc EXCEPT ![p] = "readR"] /\ UNCHANGED <<res, lock>>
-            /\ UNCHANGED <<fvars, rvars, registered, ovars, rdR, rdVR, verdict, real, cbLeft, snap, gvars>>
+                              ELSE GoOn(p, "readR", [loc[p] EXCEPT !.rdC = fileC, !.rdVC = verC])
+            /\ UNCHANGED <<fvars, rvars, registered, ovars, cbLeft, snap, gvars>>
             /\ act' = [name |-> "ReadC", p |-> p]
 
 \* ... and of the rules file (a second system call: the pair may be torn by a write in between)
 ReadR(p) == /\ pc[p] = "readR"
-            /\ rdR' = [rdR EXCEPT ![p] = fileR] /\ rdVR' = [rdVR EXCEPT ![p] = verR]
             /\ IF fileR = "U" THEN ReturnEarly(p, "err")
-                              ELSE pc' = [pc EXCEPT ![p] = "validate"] /\ UNCHANGED <<res, lock>>
-            /\ UNCHANGED <<fvars, rvars, registered, ovars, rdC, rdVC, verdict, real, cbLeft, snap, gvars>>
+                              ELSE GoOn(p, "validate", [loc[p] EXCEPT !.rdR = fileR, !.rdVR = verR])
+            /\ UNCHANGED <<fvars, rvars, registered, ovars, cbLeft, snap, gvars>>
             /\ act' = [name |-> "ReadR", p |-> p]
 
 \* newFileConfig: validateConfigs / validateRules / applyConfigInto on the bytes read (local)
 Validate(p) == /\ pc[p] = "validate"
-               /\ LET v == Verdict(rdC[p], rdR[p]) IN
-                  /\ verdict' = [verdict EXCEPT ![p] = v]
-                  /\ IF v = "err" \/ (Faithful /\ v = "warn")
-                       THEN ReturnEarly(p, "err")
-                       ELSE pc' = [pc EXCEPT ![p] = "compare"] /\ UNCHANGED <<res, lock>>
-               /\ UNCHANGED <<fvars, rvars, registered, ovars, rdC, rdR, rdVC, rdVR, real, cbLeft, snap, gvars>>
+               /\ LET v == Verdict(loc[p].rdC, loc[p].rdR) IN
+                  IF v = "err" \/ (Faithful /\ v = "warn")
+                    THEN ReturnEarly(p, "err")
+                    ELSE GoOn(p, "compare", [loc[p] EXCEPT !.verdict = v])
+               /\ UNCHANGED <<fvars, rvars, registered, ovars, cbLeft, snap, gvars>>
                /\ act' = [name |-> "Validate", p |-> p]
 
 \* `if f.mainHash == cfg.mainHash && f.rulesHash == cfg.rulesHash { return nil }`
+\* In the code as is these are two unprotected reads of the running hashes, so
+\* they are two steps (under the reload lock of the ideal design nothing can
+\* come in between): first the config hash ...
 Compare(p) == /\ pc[p] = "compare"
-              /\ IF rdC[p] = runC /\ rdR[p] = runR
-                   THEN /\ ReturnEarly(p, IF verdict[p] = "warn" THEN "warn" ELSE "nil")
-                        \* ghost only: what is running IS the content of the version just read
-                        /\ runVC' = Max(runVC, rdVC[p]) /\ runVR' = Max(runVR, rdVR[p])
-                   ELSE pc' = [pc EXCEPT ![p] = "apply"] /\ UNCHANGED <<res, lock, runVC, runVR>>
-              /\ UNCHANGED <<fvars, runC, runR, registered, ovars, rdC, rdR, rdVC, rdVR, verdict, real, cbLeft, snap, gvars>>
+              /\ GoOn(p, IF loc[p].rdC = runC THEN "compareR" ELSE "apply", loc[p])
+              /\ UNCHANGED <<fvars, rvars, registered, ovars, cbLeft, snap, gvars>>
               /\ act' = [name |-> "Compare", p |-> p]
+
+\* ... then, if that one was equal, the rules hash
+CompareR(p) == /\ pc[p] = "compareR"
+               /\ IF loc[p].rdR = runR
+                    THEN /\ ReturnEarly(p, IF loc[p].verdict = "warn" THEN "warn" ELSE "nil")
+                         \* ghost only: what is running IS the content of the version just read
+                         /\ runVC' = Max(runVC, loc[p].rdVC) /\ runVR' = Max(runVR, loc[p].rdVR)
+                    ELSE GoOn(p, "apply", loc[p]) /\ UNCHANGED <<runVC, runVR>>
+               /\ UNCHANGED <<fvars, runC, runR, registered, ovars, cbLeft, snap, gvars>>
+               /\ act' = [name |-> "CompareR", p |-> p]
 
 \* f.mux.Lock(); f.mainConfig = ...; f.mux.Unlock()   (the reload lock ends here:
 \* callbacks run outside every lock, "we don't want callbacks to deadlock")
 Apply(p) == /\ pc[p] = "apply"
-            /\ runC' = rdC[p] /\ runR' = rdR[p] /\ runVC' = rdVC[p] /\ runVR' = rdVR[p]
-            /\ real' = [real EXCEPT ![p] = (rdC[p] # runC \/ rdR[p] # runR)]
+            /\ runC' = loc[p].rdC /\ runR' = loc[p].rdR /\ runVC' = loc[p].rdVC /\ runVR' = loc[p].rdVR
+            /\ loc' = [loc EXCEPT ![p].real = (loc[p].rdC # runC \/ loc[p].rdR # runR)]
             /\ lock' = IF Serialized THEN "free" ELSE lock
             /\ pc' = [pc EXCEPT ![p] = "cbstart"]
-            /\ UNCHANGED <<fvars, registered, ovars, rdC, rdR, rdVC, rdVR, verdict, cbLeft, res, snap, gvars>>
+            /\ UNCHANGED <<fvars, registered, ovars, cbLeft, res, snap, gvars>>
             /\ act' = [name |-> "Apply", p |-> p]
 
 \* `for _, cb := range f.callbacks`: the slice is evaluated once, now
 BeginCallbacks(p) == /\ pc[p] = "cbstart"
                      /\ cbLeft' = [cbLeft EXCEPT ![p] = registered]
-                     /\ expected' = [l \in Listeners |-> expected[l] + (IF l \in registered /\ real[p] THEN 1 ELSE 0)]
+                     /\ expected' = [l \in Listeners |-> expected[l] + (IF l \in registered /\ loc[p].real THEN 1 ELSE 0)]
                      /\ pc' = [pc EXCEPT ![p] = "callbacks"]
-                     /\ UNCHANGED <<fvars, rvars, registered, ovars, rdC, rdR, rdVC, rdVR, verdict, real, res, lock, snap, notified>>
+                     /\ UNCHANGED <<fvars, rvars, registered, ovars, loc, res, lock, snap, notified>>
                      /\ act' = [name |-> "BeginCallbacks", p |-> p]
 
 Callback(p, l) == /\ pc[p] = "callbacks" /\ l \in cbLeft[p]
                   /\ cbLeft' = [cbLeft EXCEPT ![p] = @ \ {l}]
                   /\ notified' = [notified EXCEPT ![l] = @ + 1]
-                  /\ UNCHANGED <<fvars, rvars, registered, ovars, pc, rdC, rdR, rdVC, rdVR, verdict, real, res, lock, snap, expected>>
+                  /\ UNCHANGED <<fvars, rvars, registered, ovars, pc, loc, res, lock, snap, expected>>
                   /\ act' = [name |-> "Callback", p |-> p, l |-> l]
 
 Return(p) == /\ pc[p] = "callbacks" /\ cbLeft[p] = {}
-             /\ pc' = [pc EXCEPT ![p] = "idle"]
-             /\ res' = [res EXCEPT ![p] = IF verdict[p] = "warn" THEN "warn" ELSE "nil"]
-             /\ UNCHANGED <<fvars, rvars, registered, ovars, rdC, rdR, rdVC, rdVR, verdict, real, cbLeft, lock, snap, gvars>>
+             /\ Finish(p, IF loc[p].verdict = "warn" THEN "warn" ELSE "nil")
+             /\ UNCHANGED <<fvars, rvars, registered, ovars, cbLeft, lock, snap, gvars>>
              /\ act' = [name |-> "Return", p |-> p]
 
-Step(p) == \/ ReadC(p) \/ ReadR(p) \/ Validate(p) \/ Compare(p) \/ Apply(p)
+Step(p) == \/ ReadC(p) \/ ReadR(p) \/ Validate(p) \/ Compare(p) \/ CompareR(p) \/ Apply(p)
            \/ BeginCallbacks(p) \/ (\E l \in Listeners : Callback(p, l)) \/ Return(p)
 
-Env == \/ \E c \in CContents : WriteC(c)
-       \/ \E r \in RContents : WriteR(r)
-       \/ \E l \in Listeners : Register(l)
-
-Next == \/ Env
-        \/ Atomic /\ Reload
-        \/ ~Atomic /\ \E p \in Procs : Start(p) \/ Step(p)
+\* (Reload and Collect are enabled in Atomic mode only, Start - and with it every
+\* step - in step mode only)
+Next == \/ \E c \in CContents : WriteC(c)
+        \/ \E r \in RContents : WriteR(r)
+        \/ \E l \in Listeners : Register(l)
+        \/ Reload
+        \/ Collect
+        \/ \E p \in Procs : Start(p)
+        \/ \E p \in Procs : ReadC(p)
+        \/ \E p \in Procs : ReadR(p)
+        \/ \E p \in Procs : Validate(p)
+        \/ \E p \in Procs : Compare(p)
+        \/ \E p \in Procs : CompareR(p)
+        \/ \E p \in Procs : Apply(p)
+        \/ \E p \in Procs : BeginCallbacks(p)
+        \/ \E p \in Procs, l \in Listeners : Callback(p, l)
+        \/ \E p \in Procs : Return(p)
 
 Spec == Init /\ [][Next]_vars
 
@@ -302,7 +347,7 @@ FairSpec == /\ Spec
 (***************************************************************************)
 (* Properties                                                              *)
 (***************************************************************************)
-Pcs == {"idle", "readC", "readR", "validate", "compare", "apply", "cbstart", "callbacks"}
+Pcs == {"idle", "readC", "readR", "validate", "compare", "compareR", "apply", "cbstart", "callbacks"}
 TypeOK == /\ fileC \in CContents /\ fileR \in RContents
           /\ runC \in CContents /\ runR \in RContents
           /\ verC \in 0 .. MaxWrites /\ verR \in 0 .. MaxWrites
@@ -314,6 +359,7 @@ TypeOK == /\ fileC \in CContents /\ fileR \in RContents
           /\ res \in [Procs -> {"none", "nil", "warn", "err"}]
           /\ lock \in {"free"} \cup Procs
           /\ \A p \in Procs : cbLeft[p] \subseteq Listeners
+          /\ \A p \in Procs : pc[p] = "idle" => loc[p] = NoLoc
 
 \* C27 "anything startup would reject is never applied": no getter ever answers
 \* from content startup rejects (holds in the ideal design only: see Faithful)
@@ -331,7 +377,7 @@ ReloadCorrect ==
                           /\ lastNotif' = Zero
        /\ ~StartupAccepts(fileC, fileR) => lastRes' = "err"]_vars
 
-\* nobody but a Reload changes what is running or notifies anybody
+\* nobody but a Reload changes what is running
 OnlyReloadApplies ==
   [][(act'.name \notin {"Reload", "Apply"}) => UNCHANGED <<runC, runR>>]_vars
 
@@ -351,17 +397,17 @@ NotifiedOncePerChange == \A l \in Listeners : notified[l] + Owed(l) = expected[l
 NoRegress == [][runVC' >= runVC /\ runVR' >= runVR]_vars
 FreshAtReturn ==
   [][\A p \in Procs :
-       (pc[p] # "idle" /\ pc'[p] = "idle" /\ pc[p] \notin {"readC", "readR"} /\ StartupAccepts(rdC[p], rdR[p]))
-         => (runVC' >= rdVC[p] /\ runVR' >= rdVR[p])]_vars
+       (pc[p] \in {"compareR", "callbacks"} /\ pc'[p] = "idle")
+         => (runVC' >= loc[p].rdVC /\ runVR' >= loc[p].rdVR)]_vars
 
 \* the reload lock is a lock
-LockOK == /\ Serialized => \A p \in Procs : (pc[p] \in {"readC", "readR", "validate", "compare", "apply"}) <=> (lock = p)
+LockOK == /\ Serialized => \A p \in Procs : (pc[p] \in {"readC", "readR", "validate", "compare", "compareR", "apply"}) <=> (lock = p)
           /\ ~Serialized => lock = "free"
 
 \* C27 "... nor lose one", liveness half: if triggers keep firing, the last
 \* acceptable content is eventually running (and stays)
 Converges == <>[](StartupAccepts(fileC, fileR) => (runC = fileC /\ runR = fileR))
-\* a started reload always finishes and every owed notification is delivered
+\* a started reload always finishes (and has then delivered every notification it owed)
 Quiesces == \A p \in Procs : []<>(pc[p] = "idle")
 
 \* Exclusive schedule: the steps of one Reload() compose to an atomic outcome
@@ -377,7 +423,7 @@ SeqEquivalent ==
             /\ ResMatches(res'[p], o.res)]_vars
 
 (***************************************************************************)
-(* Conformance plumbing (Atomic mode)                                      *)
+(* Conformance plumbing                                                    *)
 (***************************************************************************)
 Abs == [ sendDelay |-> Delay(runC), batch |-> Batch(runC), rate |-> Rate(runR),
          hashC |-> runC, hashR |-> runR,
@@ -385,6 +431,8 @@ Abs == [ sendDelay |-> Delay(runC), batch |-> Batch(runC), rate |-> Rate(runR),
 St == [ fileC |-> fileC, fileR |-> fileR, runC |-> runC, runR |-> runR,
         registeredSet |-> registered, lastNotif |-> lastNotif, lastRes |-> lastRes ]
 Dump == PrintT(ToJson([fs |-> St, fa |-> act.name, act |-> act', ts |-> St', fabs |-> Abs, tabs |-> Abs']))
-\* the ghosts (versions, counters) are hidden: they only grow
+\* Atomic mode (the ghosts are frozen there)
 View == <<fileC, fileR, runC, runR, registered, lastNotif, lastRes>>
+\* step mode: everything but the label of the last action
+StepView == <<fvars, rvars, registered, pvars, gvars>>
 =============================================================================
